@@ -111,8 +111,8 @@ class C20(engine.Property):
     max_steps = 12
     nontermination_is_violation = True
     budget = {
-        "quick": {"runs": 12000, "wall_cap_s": 600},
-        "thorough": {"runs": 1000000, "wall_cap_s": 3000},
+        "quick": {"runs": 40000, "wall_cap_s": 600},
+        "thorough": {"runs": 2000000, "wall_cap_s": 5400},
     }
     rule = (
         "one evaluation = one seeded run of 1-8 randgraph calls, each under a scheduled "
